@@ -222,6 +222,11 @@ class Ctx(object):
         s = z3.simplify(prop)
         if z3.is_true(s):
             return 'unsat', None
+        # polynomial identities: sum-of-monomials normal form decides them
+        # without involving the non-linear solver
+        s = z3.simplify(prop, som=True, arith_lhs=True, flat=True)
+        if z3.is_true(s):
+            return 'unsat', None
         self.solver.push()
         try:
             self.solver.add(z3.Not(prop))
